@@ -285,8 +285,15 @@ class Ctx:
             return True
         if z3.is_false(cond):
             return False
+        sh = getattr(self.task, "shard", None)
         if self.pos < len(self.log):
             d = self.log[self.pos]
+        elif sh is not None and sh[0] <= self.pos < sh[0] + len(sh[1]):
+            # sharded exploration: inside the window this task follows its own bit pattern only (the other patterns are other tasks)
+            d = bool(sh[1][self.pos - sh[0]])
+            if not self.feasible(cond if d else z3.Not(cond)):
+                raise PathEnd()
+            self.log.append(d)
         else:
             ft = self.feasible(cond)
             ff = self.feasible(z3.Not(cond))
